@@ -347,14 +347,16 @@ def pct(xs, p):
     return round(xs[min(len(xs) - 1, int(p * len(xs)))], 4)
 
 
+def setup():
+    """the C03 model binary (extraction of theories/Query.v + OCaml driver) is shared"""
+    return c03.setup()
+
+
 def main(tier, seed, replay=None):
     t0 = time.time()
-    have_model = os.path.exists(os.path.join(COQ, "extract", EXTRACT))
-    have_props = os.path.exists(os.path.join(COQ, "props", PROP + ".v"))
-    proof = Proof(PROP) if have_props else None
-    exe = None
-    if have_model:
-        exe, _ = build_model("C03", EXTRACT, os.path.join(ROOT, "ocaml/c03"), MODEL_DEPS)
+    have_model = True
+    proof = Proof(PROP, tier=tier)
+    exe = setup()
     rng = random.Random(seed)
     n = int(os.environ.get("VERIF_NCASES", 2500 if tier == "quick" else 60000))
     cdir = os.path.join(ROOT, "corpus", PROP)
